@@ -23,14 +23,14 @@ COUNTS = {}
 def handle(case):
     drive.setup()
     params = c01.params_for(case["opts"])
-    block = [tuple(x) for x in case["block"]]
+    block = [tuple(x) for x in case["block"]] if "block" in case else [(i["name"], i.get("value")) for i in case["items"]]
     dump = os.path.join(os.environ.get("GASOL_VERIF_SCRATCH", tempfile.gettempdir()), "dump_%d.txt" % os.getpid())
     with open(dump, "w") as f:
         f.write("CASE %s\n" % case.get("idx"))
         f.flush()
         faulthandler.dump_traceback_later(max(2.0, case.get("_cpu", 20.0) * 0.8), repeat=False, file=f, exit=False)
         try:
-            blocks = drive.build_blocks(gen.to_items(block))
+            blocks = drive.build_blocks(case["items"] if "items" in case else gen.to_items(block))
             viols = []
             n_changed = 0
             for b in blocks:
@@ -72,6 +72,36 @@ def run():
     opts = [["-greedy"], ["-greedy", "-size"], ["-greedy", "-partition"], ["-greedy", "-no-simplification"],
             ["-greedy", "-storage"], ["-greedy", "-length", "-push0"]]
     cases = common.gen_cases(n, common.seed(), opts, kinds=["hostile", "hostile", "hostile", "deep", "long", "rule", "splitlong"])
+    # blocks of the shipped examples (our own segmentation of the code streams)
+    import glob
+    shipped = sorted(glob.glob("/repo/examples/jsons-solc/*.json_solc"), key=os.path.getsize)
+    shipped = ([p for p in shipped if "0x5552F8" in p] + shipped[:1]) if quick else shipped
+    n_ship = 0
+    for p in shipped:
+        with open(p) as f:
+            doc = json.load(f)
+        for cname, kind, did, items in clirun.code_streams(doc):
+            cur = []
+            for it in items + [None]:
+                if it is None or (it["name"] == "tag" and cur):
+                    if cur and any(x["name"] not in ("tag", "JUMPDEST") for x in cur):
+                        blk = [[x["name"], x.get("value")] for x in cur]
+                        if (not quick) or len(cur) > 150 or n_ship % 40 == 0:
+                            cases.append({"items": cur, "block": blk, "opts": ["-greedy"], "_group": "-greedy", "kind": "shipped",
+                                          "idx": len(cases), "sseed": 0})
+                        n_ship += 1
+                    cur = []
+                if it is not None:
+                    cur.append(it)
+                    if it["name"] in ("JUMP", "JUMPI", "STOP", "RETURN", "REVERT", "INVALID"):
+                        if any(x["name"] not in ("tag", "JUMPDEST") for x in cur):
+                            blk = [[x["name"], x.get("value")] for x in cur]
+                            if (not quick) or len(cur) > 150 or n_ship % 40 == 0:
+                                cases.append({"items": cur, "block": blk, "opts": ["-greedy"], "_group": "-greedy", "kind": "shipped",
+                                              "idx": len(cases), "sseed": 0})
+                            n_ship += 1
+                        cur = []
+    cases.sort(key=lambda c: c["_group"])
     for c in cases:
         c["_cpu"] = 20.0 + 1.0 * len(c["block"])
     # (a) supervised pool, with access to the per-worker dump files
@@ -102,7 +132,7 @@ def run():
                     self.run.inconclusive.append("wall-clock watchdog only: case %s" % case.get("idx"))
                 else:
                     self.run.witness("%s in %s" % (kind, where),
-                                     {"block": evm.to_plain_string([tuple(x) for x in case["block"]])[:600], "opts": case["opts"],
+                                     {"block": evm.to_plain_string([(x[0], x[1]) for x in case["block"]])[:600], "opts": case["opts"],
                                       "cpu_s": res.get("cpu"), "rss": res.get("rss"), "instructions": len(case["block"])})
                 self.stat["budget_" + res["_fail"]] += 1
                 return
